@@ -59,6 +59,10 @@ def one(chk, it, ntx):
     from_block = it.by_last['from_block'][0]
     inputs = {'has_action': has_action, 'tips': sterms['tips'], 'height': sterms['height'], 'fee_pool': sterms['fee_pool'],
               'fee_multiplier': sterms['fee_multiplier'], 'dosc_speed': sterms['dosc_speed'], 'network': sterms['network']}
+    for j, (k_, v_, g_) in enumerate(stakes.entries):
+        inputs['stake%d_e_start' % j] = v_.fields[1]
+        inputs['stake%d_e_post_end' % j] = v_.fields[2]
+    pc.append(z3.ULE(sterms['height'], 100_000_000))  # P-HEIGHT
     n = 0
     for s1, o1 in it.exec_fn(st, to_block, [Ptr(scell)]):
         rp = lambda mo: replay(chk, mo, inputs, False)
@@ -105,6 +109,28 @@ def replay(chk, model, inputs, tips_matter):
     ev = lambda t: harness.model_int(model, t)
     # pending tips only enter the scenario for the tips obligation itself (they are a known finding of their own)
     req = {'kind': 'c08', 'with_action': bool(ev(inputs['has_action'])), 'tips_nonzero': tips_matter and ev(inputs['tips']) != 0}
+    # the stop height and the stakes' end epochs, mapped to a height the native build reaches quickly while keeping the
+    # position inside the epoch (first / last block or interior) and each stake's distance to the next block's epoch
+    EPOCH = 200000
+    h = ev(inputs['height'])
+    new_epoch = (h + 1) // EPOCH
+    e2 = min(new_epoch, 6)
+    last_of_epoch, first_of_epoch = (h + 1) % EPOCH == 0, h % EPOCH == 0
+    if last_of_epoch and e2 > 0:
+        h2 = e2 * EPOCH - 1
+    elif first_of_epoch:
+        h2 = e2 * EPOCH
+    else:
+        h2 = e2 * EPOCH + 1 + min(h % EPOCH, 1000)
+    if h2 >= 2:
+        req['height'] = h2
+        stakes = []
+        for j in range(2):
+            if ('stake%d_e_post_end' % j) in inputs:
+                d_end = max(-3, min(3, ev(inputs['stake%d_e_post_end' % j]) - new_epoch))
+                d_start = max(-3, min(3, ev(inputs['stake%d_e_start' % j]) - new_epoch))
+                stakes.append({'e_start': max(0, (h2 + 1) // EPOCH + d_start), 'e_post_end': max(0, (h2 + 1) // EPOCH + d_end)})
+        req['stakes'] = stakes
     out = harness.run_replay([req], 'dev')[0]
     if 'error' in out:
         raise Inconclusive('replay: ' + out['error'])
